@@ -41,7 +41,8 @@ RULE = ("exhaustive: every pattern of length <= 4 (quick) / <= 5 (thorough) over
         "and vs an independent matcher written from the manual (direct oracle); random longer patterns/names over a wider "
         "alphabet (backslash, ^, space, newline, non-ASCII) evaluated in shuffled order (lru_cache); every rule list of length "
         "<= 3 over 3 levels x 6 rule texts (exact and pattern) given as --privacy values, parsed by the real option code, on a "
-        "real System with random query histories (privacyClass / isVisible / isPrivate, cache content compared); every pattern "
+        "real System with random query histories (privacyClass / isVisible / isPrivate, cache content compared), and the same "
+        "over 6 rule texts aimed at duplicate definitions (superseded 'p.d.K 0' with members, 'p.d.K.f 0', 'f 1', '_g 0'); every pattern "
         "of the exhaustive space through parse_privacy_tuple (accepted iff well formed); hand-made rule lists put into "
         "options.privacy directly (the only way a pattern re refuses still reaches qnmatch). Non-trivial = pattern has a metacharacter and some "
         "name matches and some does not (glob streams) / the list has a rule that applies to a queried object (privacy streams).")
@@ -436,6 +437,8 @@ LEVELS = ["HIDDEN", "PRIVATE", "PUBLIC"]
 LCODE = {"HIDDEN": "H", "PRIVATE": "P", "PUBLIC": "U"}
 RULE_TEXTS = ["p.m.C", "p.__main__", "p.m.*", "**._*", "p.?.[A-C]*", "p.m.C.[!_]*"]
 BAD_TEXTS = ["p.m.[b-a]*", "**.[a--]", "p.[_-.]*"]
+# rules aimed at the duplicate definitions under p.d
+DUP_RULE_TEXTS = ["p.d.K 0", "p.d.K.f 0", "p.d.*", "p.d.K 0.*", "**.K*.[!_]*", "**._*"]
 
 # (qualified name, class) in creation order; parents come first
 TREE = [
@@ -448,6 +451,38 @@ TREE = [
     ("p._m.C", "Class"), ("p._m.C.f", "Function"),   # same last names as p.m.C / p.m.C.f, other qualified names
 ]
 KIND_NONE = {"p.m.k"}
+
+# duplicate definitions, created after TREE: (label, parent label, name, class); labels of TREE objects are their
+# qualified names. System.handleDuplicate renames the older definition to 'name 0' ('name 1', …) and the newer one
+# takes its place in the parent's contents: `class K: m, _n, I.z` then `class K` again, `def f` three times,
+# `def _g` twice, and a member added to the superseded class after it was renamed.
+DUP_TREE = [
+    ("d", "p", "d", "Module"),
+    ("K1", "d", "K", "Class"), ("K1.m", "K1", "m", "Function"), ("K1._n", "K1", "_n", "Function"),
+    ("K1.I", "K1", "I", "Class"), ("K1.I.z", "K1.I", "z", "Function"),
+    ("K2", "d", "K", "Class"), ("K2.m", "K2", "m", "Function"),
+    ("f1", "K2", "f", "Function"), ("f2", "K2", "f", "Function"), ("f3", "K2", "f", "Function"),
+    ("g1", "d", "_g", "Function"), ("g2", "d", "_g", "Function"),
+    ("K1.late", "K1", "late", "Function"),
+]
+_INFO: Any = None
+
+
+def is_entry(ob) -> bool:
+    """is `ob` the entry of its parent's contents (True for a root)?  False for a superseded older definition"""
+    return ob.parent is None or ob.parent.contents.get(ob.name) is ob
+
+
+def tree_info() -> Dict[str, Tuple[str, bool, bool, bool, Optional[str]]]:
+    """qualified name -> (name, is module, kind None, is contents entry, parent's qualified name) of the fixed tree,
+    read once from a real System built without rules (insertion order = creation order)"""
+    global _INFO
+    if _INFO is None:
+        from pydoctor import model
+        _, objs = build_system([], "raw")
+        _INFO = {full: (ob.name, isinstance(ob, model.Module), ob.kind is None, is_entry(ob),
+                        ob.parent.fullName() if ob.parent else None) for full, ob in objs.items()}
+    return _INFO
 
 
 _DEFAULT_OPTS: Any = None
@@ -477,27 +512,33 @@ def build_system(rule_strings: Sequence[str], via: Any = False):
             ob.kind = None
         system.addObject(ob)
         objs[full] = ob
-    return system, objs
+    with contextlib.redirect_stderr(io.StringIO()):   # "duplicate Class 'p.d.K'" reports
+        for label, plabel, name, cls in DUP_TREE:
+            ob = getattr(system, cls)(system, name, objs[plabel])
+            if not isinstance(ob, model.Module):   # the AST builder sets it; Documentable.report (duplicate) reads it
+                ob.parentMod = objs[plabel] if isinstance(objs[plabel], model.Module) else objs[plabel].parentMod
+            system.addObject(ob)
+            objs[label] = ob
+    return system, {ob.fullName(): ob for ob in objs.values()}
 
 
 def static_obj_token(full: str) -> str:
-    """token of a TREE object without a System (only used when the rule list was refused)"""
-    cls = dict(TREE)[full]
-    return "%s/%s/%s%s" % (enc(full), enc(full.rpartition(".")[2]), "m" if cls in ("Module", "Package") else "o",
-                           "n" if full in KIND_NONE else "k")
+    """token of a tree object without a System (only used when the rule list was refused)"""
+    name, is_mod, kind_none, entry, _ = tree_info()[full]
+    return "%s/%s/%s%s%s" % (enc(full), enc(name), "m" if is_mod else "o", "n" if kind_none else "k", "e" if entry else "s")
 
 
 def static_chain(full: str) -> List[str]:
     out = [full]
-    while "." in out[-1]:
-        out.append(out[-1].rpartition(".")[0])
+    while tree_info()[out[-1]][4] is not None:
+        out.append(tree_info()[out[-1]][4])
     return out
 
 
 def obj_token(ob) -> str:
     from pydoctor import model
-    return "%s/%s/%s%s" % (enc(ob.fullName()), enc(ob.name), "m" if isinstance(ob, model.Module) else "o",
-                           "n" if ob.kind is None else "k")
+    return "%s/%s/%s%s%s" % (enc(ob.fullName()), enc(ob.name), "m" if isinstance(ob, model.Module) else "o",
+                             "n" if ob.kind is None else "k", "e" if is_entry(ob) else "s")
 
 
 def chain_of(ob):
@@ -570,7 +611,9 @@ def privacy_eval(rules: Sequence[Tuple[str, str]], queries: Sequence[Tuple[str, 
         if op == "c":
             want = lv
         elif op == "v":
-            want = str(all(o_level(parsed, x) != "HIDDEN" for x in ch))
+            # hidden-ness is inherited from the parents; an older definition superseded by a later one of the same
+            # name (no longer its parent's contents entry) is not shown, nor is anything inside it (cb98646)
+            want = str(all(o_level(parsed, x) != "HIDDEN" for x in ch) and all(is_entry(x) for x in ch))
         else:
             want = str(lv != "PUBLIC")
         if any(pat == x.fullName() or o_qnmatch(x.fullName(), pat) for _, pat in parsed for x in scope):
@@ -585,6 +628,8 @@ def privacy_eval(rules: Sequence[Tuple[str, str]], queries: Sequence[Tuple[str, 
                 bad = [pat for _, pat in parsed if not o_wellformed(o_tokens(pat))]
                 fails.append((f"raises:{got}:" + ("descending-range" if bad else "other"), inp,
                               f"{full}.{meth} raised {got} under --privacy {rule_strings}"))
+            elif op == "v" and got == "True" and not all(is_entry(x) for x in ch):
+                fails.append(("superseded-visible", inp, f"{full}.isVisible is True although it is (inside) a superseded older definition"))
             elif mains:
                 ruled = any(pat == mains[0].fullName() or o_qnmatch(mains[0].fullName(), pat) for _, pat in parsed)
                 fails.append(("main-module:" + ("rule-ignored" if ruled else "default-private"), inp,
@@ -618,32 +663,36 @@ def privacy_stream(ctx: Ctx, stream: str, jobs: List[Tuple[Any, Any, bool]]) -> 
                 [{"rules": r["rules"], "queries": r["queries"]} for r in results])
 
 
-def rand_queries(rng, k: int) -> List[Tuple[str, str]]:
-    names = [t[0] for t in TREE]
+def rand_queries(rng, k: int, under: str = "") -> List[Tuple[str, str]]:
+    names = [n for n in tree_info() if n.startswith(under) or (under and rng.random() < 0.1)]
     qs = []
     for _ in range(k):
         if qs and rng.random() < 0.25:
             qs.append((rng.choice("cvp"), rng.choice(qs)[1]))   # ask again: cache hit
         else:
-            qs.append((rng.choice("ccvp"), rng.choice(names)))
+            qs.append((rng.choice("ccvvp" if under else "ccvp"), rng.choice(names)))
     return qs
 
 
 def rand_rule_text(rng) -> str:
     r = rng.random()
     if r < 0.3:
-        return rng.choice([t[0] for t in TREE])
+        return rng.choice(list(tree_info()))
     if r < 0.38:
-        return rng.choice(RULE_TEXTS)
+        return rng.choice(RULE_TEXTS + DUP_RULE_TEXTS)
     if r < 0.42:
         return rng.choice(BAD_TEXTS)
     parts = []
     for _ in range(rng.randint(1, 4)):
-        parts.append(rng.choice(["p", "m", "_m", "C", "_C", "*", "**", "?", "_*", "__*__", "[A-C]", "[!_]*", "[_]*", "f", "*f", "[c-a]", "__main__"]))
+        parts.append(rng.choice(["p", "m", "_m", "C", "_C", "*", "**", "?", "_*", "__*__", "[A-C]", "[!_]*", "[_]*", "f", "*f", "[c-a]", "__main__",
+                                 "d", "K", "K 0", "K*", "f 0", "f ?", "* 0", "I", "_g*"]))
     return ".".join(parts)
 
 
 def run_privacy(ctx: Ctx) -> None:
+    tree_info()   # read the fixed tree once, before the worker processes are forked
+    ctx.extra["tree_objects"] = len(tree_info())
+    ctx.extra["tree_superseded"] = sorted(n for n, v in tree_info().items() if not v[3])
     pool = [(lv, t) for lv in LEVELS for t in RULE_TEXTS]
     lists = [list(c) for k in range(4) for c in itertools.product(pool, repeat=k)]
     rounds = 1 if ctx.quick else 3
@@ -651,6 +700,12 @@ def run_privacy(ctx: Ctx) -> None:
             for idx, rules in enumerate(lists) for rd in range(rounds)]
     ctx.extra["exhaustive_rule_lists"] = len(lists)
     privacy_stream(ctx, "privacy-exhaustive", jobs)
+    # the same on the duplicate definitions of p.d: superseded 'p.d.K 0' with members, 'p.d.K.f 0', 'p.d.K.f 1', 'p.d._g 0'
+    pool = [(lv, t) for lv in LEVELS for t in DUP_RULE_TEXTS]
+    lists = [list(c) for k in range(4) for c in itertools.product(pool, repeat=k)]
+    jobs = [(rules, rand_queries(ctx.rng, 10, "p.d"), idx % 97 == 0 and rd == 0)
+            for idx, rules in enumerate(lists) for rd in range(rounds)]
+    privacy_stream(ctx, "privacy-exhaustive-dup", jobs)
     jobs = []
     for _ in range(400 if ctx.quick else 12000):
         rules = [(ctx.rng.choice(LEVELS), rand_rule_text(ctx.rng)) for _ in range(ctx.rng.randint(0, 6))]
